@@ -99,6 +99,7 @@ func c09prop(ev *evid.Rec) func(rt *rapid.T) {
 			var lastRef []byte
 			have := 0            // bytes of content the server holds in the partial file (model)
 			partialMade := false // whether the server got far enough to create the partial file
+			wholeStream := false
 			attempt := func(cut int, label string) (completed bool) {
 				resume := partialMade
 				// the stream of this attempt: header + content[offset:] (+ resource fork)
@@ -140,6 +141,7 @@ func c09prop(ev *evid.Rec) func(rt *rapid.T) {
 				}
 				w.Transfer("10.0.0.1:2", ref, len(stream), stream, cut)
 				if cut < 0 {
+					wholeStream = true // this attempt delivered its whole stream, resource fork included
 					return true
 				}
 				if cut >= 16 {
@@ -254,6 +256,14 @@ func c09prop(ev *evid.Rec) func(rt *rapid.T) {
 			}
 			if len(rx) < p.HeaderLen+size || !bytes.Equal(rx[p.HeaderLen:p.HeaderLen+size], content) {
 				rt.Fatalf("download of the uploaded file returns different bytes (cuts %v)", cutLog)
+			}
+			if preserve && forks == 3 && wholeStream {
+				// the completing attempt carried the whole resource fork: that, and nothing else, is the file's resource fork now
+				want := append(hlref.ForkHeader("MACR", len(rsrc)), rsrc...)
+				if tail := rx[p.HeaderLen+size:]; !bytes.Equal(tail, want) {
+					sb, _ := readOrNil(filepath.Join(dir, ".rsrc_"+name))
+					rt.Fatalf("download of the uploaded file: %d bytes follow the data fork, the uploaded resource fork has %d bytes (+16 header); stored resource fork file: %d bytes (cuts %v)", len(tail), len(rsrc), len(sb), cutLog)
+				}
 			}
 		})
 		ev.Case(evid.Hash(name, content, forks, fmt.Sprint(cutLog), preserve, target, preexisting, seg, segSeed, own), ntCase, "segmentation:"+seg, fmt.Sprintf("own-root:%v", own), fmt.Sprintf("cuts:%d", len(cutLog)), fmt.Sprintf("forks:%d", forks), sizeClass(size), fmt.Sprintf("preexisting:%v", preexisting))
